@@ -13,7 +13,7 @@ import processscheduler as ps
 
 from symx import engine, formula
 from symx.formula import And, Or, Not
-from symx.harness import Shape, Ob, Ctx, run_property, quiet, tracking_literals
+from symx.harness import library_failure, confirm_library_failure, Shape, Ob, Ctx, run_property, quiet, tracking_literals
 from checks import c14
 
 PROP = "C15"
@@ -140,6 +140,7 @@ def concrete_shape(kind, cfg):
     def build(P):
         return Ctx(problem=None)
 
+    @library_failure
     def fn(ctx, path):
         problems = run_concrete(kind, cfg)
         if problems:
@@ -205,6 +206,7 @@ def run_concrete(kind, cfg):
     return problems
 
 
+@confirm_library_failure
 def replay_concrete(desc):
     import symx.harness as H
 
